@@ -140,3 +140,38 @@ Theorem C16_sim_field_write_wakes_iff_prefix :
     (In e (st_queue (notify_all s (notified WField p))) <-> (is_prefix p r = true \/ is_prefix r p = true)).
 Proof. exact field_write_wakes_iff_prefix. Qed.
 Print Assumptions C16_sim_field_write_wakes_iff_prefix.
+
+(** order: an effect woken at an earlier position of the notification order (C16_wake_position)
+    is queued at the executor — and on a FIFO executor run — before one woken at a later position *)
+Theorem C16_sim_earlier_position_queued_first :
+  forall n s k p e1 e2 r1 r2 i1 i2,
+    consistent n s -> st_queue s = [] -> reads s e1 [r1] -> reads s e2 [r2] ->
+    wake_pos_k k p r1 = Some i1 -> wake_pos_k k p r2 = Some i2 -> i1 < i2 ->
+    exists q1 q2, st_queue (notify_all s (notified k p)) = q1 ++ q2 /\ In e1 q1 /\ ~ In e2 q1 /\ In e2 q2.
+Proof. exact earlier_position_queued_first. Qed.
+Print Assumptions C16_sim_earlier_position_queued_first.
+
+(** readers of ancestors of the written field (and of the field itself) are queued before
+    readers of anything deeper on the written path or below it *)
+Theorem C16_sim_ancestor_reader_queued_first :
+  forall n s p e1 e2 r1 r2,
+    consistent n s -> st_queue s = [] -> reads s e1 [r1] -> reads s e2 [r2] ->
+    is_prefix r1 p = true -> (is_prefix r2 p = true \/ is_prefix p r2 = true) -> length r1 < length r2 ->
+    exists q1 q2, st_queue (notify_all s (notified WField p)) = q1 ++ q2 /\ In e1 q1 /\ ~ In e2 q1 /\ In e2 q2.
+Proof. exact ancestor_reader_queued_first. Qed.
+Print Assumptions C16_sim_ancestor_reader_queued_first.
+
+(** Patch::patch wakes exactly the effects that read a field related to a changed leaf *)
+Theorem C16_sim_patch_wakes_exactly_related :
+  forall n s ps e rs, consistent n s -> st_queue s = [] -> reads s e rs ->
+    (In e (st_queue (notify_all s (concat (map triggers_for_path ps)))) <->
+     exists p r, In p ps /\ In r rs /\ wakes p r = true).
+Proof. exact patch_wakes_exactly_related. Qed.
+Print Assumptions C16_sim_patch_wakes_exactly_related.
+
+(** a reader that lost its field (removed key, None, missing index) is dropped: no write wakes it *)
+Theorem C16_sim_blocked_reader_never_woken :
+  forall n s k p e, consistent n s -> st_queue s = [] -> reads s e [] ->
+    ~ In e (st_queue (notify_all s (notified k p))).
+Proof. exact blocked_reader_never_woken. Qed.
+Print Assumptions C16_sim_blocked_reader_never_woken.
